@@ -151,6 +151,14 @@ json generate(uint64_t seed, uint64_t idx, int tier)
 		for (int i = 0; i < n; i++) {
 			int cl = (int)r.below(2);
 			unsigned k = (unsigned)r.below(100);
+			if (k >= 40 && k < 48) {
+				// a print filter installed on one instance only
+				json s = step(cl, "setprintfilter", 0);
+				s["at"] = json::array({json::array({"inst", cl})});
+				s["owner"] = 0;
+				steps.push_back(s);
+				continue;
+			}
 			if (k < 15 && !ipaths.empty()) {
 				// callbacks registered through one instance must stay private to it
 				json s = step(cl, r.chance(2, 3) ? "setvalidate" : "setprintfunc", 0);
@@ -184,6 +192,13 @@ json generate(uint64_t seed, uint64_t idx, int tier)
 			s["at"] = at;
 			s["owner"] = 0;
 			steps.push_back(s);
+		}
+		// the whole context printed at the end: each party's block must look as in its solo run
+		{
+			json pr = step(0, "print", 0);
+			pr["shared"] = 1;
+			pr["finalprint"] = 1;
+			steps.push_back(pr);
 		}
 		// creating further instances must still find the declared sub-options and defaults
 		if (r.chance(1, 2)) {
@@ -328,6 +343,37 @@ JudgeOut judge(const json &plan)
 			}
 		}
 	}
+	// printed text: the block of each instance in the print of the whole context equals the block in the party's solo run
+	if (mode == "instances" && out.viol.empty()) {
+		auto block_of = [](const std::string &text, const std::string &title) {
+			std::string head = "inst \"" + title + "\" {\n";
+			size_t p = text.find(head);
+			if (p == std::string::npos || (p != 0 && text[p - 1] != '\n'))
+				return std::string("<absent>");
+			size_t e = text.find("\n}\n", p);
+			return e == std::string::npos ? text.substr(p) : text.substr(p, e - p + 3);
+		};
+		const OpResult *fp_all = nullptr;
+		for (auto &o : r.ops)
+			if (o.index >= 0 && (size_t)o.index < steps.size() && steps[o.index].value("finalprint", 0))
+				fp_all = &o;
+		for (int cl = 0; cl < 2 && fp_all && out.viol.empty(); cl++) {
+			ExecOpts so = eo;
+			so.only_client = cl;
+			RunResult solo = execute(plan, so);
+			add_exec_counters(out, solo);
+			for (auto &o : solo.ops)
+				if (o.index == fp_all->index) {
+					std::string title = cl == 0 ? "A" : "B";
+					std::string a = block_of(fp_all->sres, title), b = block_of(o.sres, title);
+					out.k.add("probe.printed_block_compared_with_solo_run");
+					if (a != b)
+						out.viol.push_back({"O-solo:instances:print", "the printed block of instance \"" + title + "\" differs from the run in which only this instance was touched (a print filter or callback of the sibling leaks)\n  interleaved: " +
+												      esc(a).substr(0, 400) + "\n  solo:        " + esc(b).substr(0, 400),
+								    nullptr});
+				}
+		}
+	}
 	// a third instance created at the end must equal a pristine one (declared sub-options and defaults)
 	if (mode == "instances" && out.viol.empty()) {
 		const OpResult *last_add = nullptr;
@@ -344,7 +390,10 @@ JudgeOut judge(const json &plan)
 			RunResult pr = execute(pristine, eo);
 			add_exec_counters(out, pr);
 			const json *fresh = subtree(last_add->tree, "inst", 2);
-			const json *ref = pr.ops.size() >= 2 ? subtree(pr.ops[pr.ops.size() - 2].tree, "inst", 1) : nullptr;
+			const json *ref = nullptr;
+			for (auto &po : pr.ops)
+				if (!po.tree.is_null() && subtree(po.tree, "inst", 1))
+					ref = subtree(po.tree, "inst", 1);
 			if (fresh && ref) {
 				out.k.add("probe.third_instance_created_late");
 				if (*fresh != *ref)
@@ -365,7 +414,7 @@ Property P = [] {
 		 "context driven by two parties, then a third instance created late; every step is compared with the party's solo run; distinct = distinct (schedule, plan) pairs";
 	p.assumptions = {"options bound to caller variables (CFG_SIMPLE_*) are not generated: sharing the caller's variable is their contract",
 			 "ambient errno is pinned to 0 and texts never end inside a string or comment, so the mechanisms of C08/C04 cannot fire here"};
-	p.probes = {"declarations_poisoned_and_freed", "step_compared_with_solo_run", "third_instance_created_late", "single_section_recreated", "context_creation_ran_out_of_memory"};
+	p.probes = {"declarations_poisoned_and_freed", "step_compared_with_solo_run", "third_instance_created_late", "single_section_recreated", "context_creation_ran_out_of_memory", "printed_block_compared_with_solo_run"};
 	p.components = {{"confuse.c cfg_dupopt_array / cfg_setopt section copy / cfg_free_opt_array", "real"}, {"declaration memory", "stub: owned, poisoned and freed by the simulator"}, {"scheduler", "stub: seeded interleaving of two clients"}};
 	p.quick_seconds = 20;
 	p.thorough_seconds = 300;
